@@ -6,6 +6,7 @@ printed text goes to the real `Template::Render` (harness/template_harness.cpp) 
 """
 import os
 from vlib import core
+from checks import _tmpl_streams as T
 
 META = {
     "property_id": "C02",
@@ -362,6 +363,11 @@ def run(ctx):
         doc, toks = wide_svar_case(ctx.rng, w)
         spec_lines.append("tplspec 1 %s %s" % (enc(doc), ",".join(toks)))
         widths.append(w)
+    for _ in range(N // 15):          # non-Latin-1 units that are a special character under a mask, on every escaped path (round c)
+        w = ctx.rng.choice("24W")
+        doc, toks = T.c02_wide_escape_case(ctx.rng, w, enc)
+        spec_lines.append("tplspec 1 %s %s" % (enc(doc), ",".join(toks)))
+        widths.append(w)
     spec_out, _ = core.run_lines_parallel(drv, spec_lines, jobs=12, env=None)
     lines, expected, keep = [], [], []
     bad_spec = 0
@@ -393,10 +399,12 @@ def run(ctx):
         k = ctx.rng.randrange(len(lines))
         ctx.cov["samples"].append({"stream": "documented-expansion", "input": lines[k][:300], "impl": impl[k][:200], "expected": expected[k][:200]})
     ctx.notes.append("templates: %d generated, %d compared, %d mismatches" % (N, len(lines), len(mism)))
+    T.c02_copies(ctx, exe, lines, expected)          # the same through a copy of the parsed tag array (round c)
+    T.c02_group(ctx, drv, exe, enc)                  # <loop group=> on items with differing member orders (round c)
     ctx.assumptions += ["well-formedness side conditions are those of the generator (see META.note)",
                         "number formatting of reals, sort=, group= are decided by C10 / C15 / C18"]
 
 
 FINISH = dict(level="proof",
-              rule="generated template trees (text, var, raw, math, svar, inline if, if chains, loops nested <= 3; block tags nested 7..13 deep with loops at the 8/9 boundary; super-variable phrases with wide units whose low byte is an ASCII digit) x generated value trees, widths 1/2/4/wchar_t; printed by the Lean printer, rendered by the real code on exact-size buffers under ASan/UBSan, compared with the Lean reference expansion; non-trivial = contains at least one tag",
+              rule="generated template trees (text, var, raw, math, svar, inline if, if chains, loops nested <= 3; block tags nested 7..13 deep with loops at the 8/9 boundary; super-variable phrases with wide units whose low byte is an ASCII digit) x generated value trees, widths 1/2/4/wchar_t; printed by the Lean printer, rendered by the real code on exact-size buffers under ASan/UBSan, compared with the Lean reference expansion; round c: non-Latin-1 units that are a special character under a mask on every escaped path (widths 2/4/W), every 9th line again through a copy of the parsed tags, <loop group=> over objects with differing member orders against the Lean grouping specification; non-trivial = contains at least one tag",
               checker_cmd="cd lean && lake build Qentem.Props.C01 Qentem.Props.C04 Qentem.Props.C03 && lake env lean <#print axioms>")
